@@ -376,7 +376,7 @@ def main(ck):
     ck.assumptions += [
         "decimal -> binary64 conversion: the theorems take the conversion the parser calls as a Section variable dec2f; the float theorems "
         "have the hypothesis that it is the correctly rounded conversion Model.dec2f_exact (exact integer arithmetic, proved correctly rounded: "
-        "C06_dec2f_round_ratio_correct: nearest multiple of the binade spacing, ties to even). The hypothesis is CHECKED on every run: every float field the implementation stores (the real "
+        "C06_dec2f_exact_nearest_binary64: for every text the binary64 nearest to the decimal value among all binary64 values, no premise). The hypothesis is CHECKED on every run: every float field the implementation stores (the real "
         "parser, strconv.ParseFloat since 8629b74) is compared bit for bit with dec2f_exact of its literal - random spellings, 17+ digit "
         "literals, exact midpoints between neighbouring doubles and their neighbours, subnormals, 'f'-suffixed literals "
         "(coverage float_literals_checked_against_dec2f_exact)",
@@ -400,7 +400,7 @@ def main(ck):
         phases[name] = round(time.time() - t0, 1)
         t0 = time.time()
     ck.coq_audit(["C06"])
-    ok = ck.coq_build(["C06/Proofs.vo", "C06/ProofsInt.vo", "C06/ProofsDec.vo", "C06/ProofsRender.vo", "C06/ProofsStream.vo", "C06/ProofsFloat.vo", "C06/ProofsWriter.vo", "C06/Corr.vo"])
+    ok = ck.coq_build(["C06/Proofs.vo", "C06/ProofsInt.vo", "C06/ProofsDec.vo", "C06/ProofsRender.vo", "C06/ProofsStream.vo", "C06/ProofsFloat.vo", "C06/ProofsFloatAll.vo", "C06/ProofsWriter.vo", "C06/Corr.vo"])
     if ok:
         ck.coq_props(["C06/Props.v", "C06/Refuted.v"])
     lap("coq_build_and_props")
